@@ -37,6 +37,28 @@ var round5Rules = map[string][]func(*report.Ctx){
 	"C18": {checkUpdateCredentialsApplied, checkInitTypeBeforeServer},
 }
 
+// round5Text: the sentence added to each property's explanation for the rules above.
+var round5Text = map[string]string{
+	"C01": "the front end's response proxy keeps every body and refuses none; its server sets no write or whole-request deadline; the client context is standard base64 both ways.",
+	"C02": "GetCurrentInvokeID answers \"\" only when there is no invocation context (a duplicate for the in-flight id is a 403 of the automaton, not a 400 of the id check).",
+	"C03": "an entry of the extensions directory is listed exactly when it is not a directory, the path check is textual; the Extensions API is switched on unconditionally; cancelling a latch marks, records and wakes on every path.",
+	"C04": "the park primitive consumes the release it was woken by (one event per release); CountAgents consults both registries.",
+	"C05": "from the timeout case of Invoke no return is reachable without a synchronous Reset; the one-shot cancel reaches both flows; shutdown and clear entry points do their work in every state; no answer deadline on the front end's server.",
+	"C06": "CancelFlows reaches both flows on every path; the init-failure channel is closed on both outcomes; routers install the application-context middleware before its readers; only the sandbox Reset clears the execution context; the supervisor has a single event sender after cmd.Wait; the error document carries the fault type unaltered; fallback fault types after Cmd()/Cwd(); the runtime object is used only after a successful doInvoke.",
+	"C07": "as C06 for cancel fan-out, init-failure channel, single event sender and runtime lookup; teardown entry points unconditional; hand-unlocked regions are checked against panics behind interface dispatch.",
+	"C08": "an exit channel is created only after a successful Exec; Clear re-initialises in every phase; no request-handling closure writes a variable it captured.",
+	"C09": "an extension's Release posts the release in every state and the park primitive consumes it; handleShutdown always runs the choreography; the reset deadline is Monotime() + 1 000 000 * timeoutMs; shutdown functions run in registration order with the sandbox reset first; CountAgents consults both registries.",
+	"C12": "GetCurrentInvokeID is truthful; routers install the application-context middleware; the JSON reply body comes from a buffer allocated by that call.",
+	"C13": "the park primitive consumes the release; the Extensions API is switched on unconditionally; the extensions router installs the application-context middleware; JSON reply buffer owned by the call; the front end's init request reaches the server field by field (handler included).",
+	"C14": "the front end's response proxy keeps every body; on the buffered direct-invoke path Oversized is said only when strictly more than the limit was copied.",
+	"C15": "fallback fault types after Cmd()/Cwd(); the launch error is a sentinel or the supervisor's own error (classification by identity and os.IsPermission); the extension automata are checked here too (the status lines report their states and recorded error types).",
+	"C16": "every field of the front end's init request (handler included) reaches the server's; key and value of KEY=VALUE are the two sides of the first '=' exactly as given.",
+	"C17": "standard base64 for the client context; buffered path: Oversized only over the limit; a streaming invoke always runs in streaming mode; NewBucket tests exactly the five tabled relations; GetMetrics never nil; every refill offers the wake-up before the next wait.",
+	"C18": "UpdateCredentials returns nil only after SetCredentials; the init type is stored before the API server (whose router reads it) is built.",
+	"C19": "the supervisor publishes events at exactly one place, after cmd.Wait returned for a started process.",
+	"C20": "each trace list of an error cause is cut by a fraction of its own length; no request-handling closure keeps state (the runtime identity string included) between requests.",
+}
+
 // beforeEveryReturn reports whether on every path from the entry of f to every reachable return an instruction
 // satisfying is has been executed; n is the number of such instructions in f.
 func beforeEveryReturn(f *ssa.Function, is func(ssa.Instruction) bool) (n int, ok bool, where token.Pos) {
@@ -413,8 +435,16 @@ func checkShutdownFuncOrder(c *report.Ctx) {
 	// the constructor registers the reset before anybody else can register anything
 	if nb := fn(c, rapidcP, "NewSandboxBuilder"); nb != nil {
 		has := false
-		for _, a := range an.WithAnon(nb) {
-			if len(an.Calls(a, func(s string) bool { return strings.HasSuffix(s, ".Reset") })) > 0 {
+		reset := c.P.Func(rapidcP, "(*Server).Reset")
+		for _, call := range an.CallsTo(nb, sbT+".AddShutdownFunc") {
+			var g *ssa.Function
+			switch x := an.Strip(call.Common().Args[1], false).(type) {
+			case *ssa.MakeClosure:
+				g, _ = x.Fn.(*ssa.Function)
+			case *ssa.Function:
+				g = x
+			}
+			if g != nil && reset != nil && reachableFrom(c, g)[reset] {
 				has = true
 			}
 		}
